@@ -31,6 +31,7 @@ type offHost struct {
 	ResetupFresh  bool    `json:"resetupfresh"`
 	StartAgoH     int     `json:"startagoh"` // the server was started this many hours ago
 	StatusOld     bool    `json:"statusold"` // the resetup status was written two hours ago (else now)
+	Standalone    bool    `json:"standalone"` // not the recorded master, but it has no replication configured (freshly restored / reset / stale master)
 }
 
 type offEvent struct {
@@ -147,6 +148,23 @@ func TestVerifC17(t *testing.T) {
 						h.ResetupFresh = !h.StatusOld || h.StartAgoH == 10
 						hs[name] = h
 					}
+					if run%6 == 5 {
+						// a dedicated situation: one host that is not the recorded master has NO replica status at all (freshly
+						// restored, reset, or a stale master) and is offline; everybody else is a healthy online replica. Its lag is
+						// unknown: the replica policy must leave it alone (and the master policy is not meant for it)
+						first := true
+						for name, h := range hs {
+							if h.IsMaster {
+								continue
+							}
+							h.Lag, h.Offline, h.Broken, h.ResetupStatus = 5, false, false, false
+							if first {
+								h.Standalone, h.Lag, h.Offline = true, -1, true
+								first = false
+							}
+							hs[name] = h
+						}
+					}
 					lastAge := []int64{-1, 1000, 200000}[rng.Intn(3)]
 					masterStartIdx := rng.Intn(2)
 					// materialise: tree
@@ -183,7 +201,11 @@ func TestVerifC17(t *testing.T) {
 								x.StartedAt = time.Now().Add(-time.Duration([]int{30, 20 * 60}[masterStartIdx]) * time.Minute)
 							}
 							ns := &nodestate.NodeState{PingOk: true, IsMaster: h.IsMaster, IsOffline: h.Offline, IsReadOnly: !h.IsMaster || !masterRW}
-							if !h.IsMaster {
+							if h.Standalone {
+								// what getNodeState reports for a server without replication: "is master" (= empty replica status)
+								ns.IsMaster = true
+								ns.MasterState = &nodestate.MasterState{}
+							} else if !h.IsMaster {
 								ns.SlaveState = &nodestate.SlaveState{MasterHost: "m-1", ReplicationState: mysql.ReplicationRunning}
 								if h.Lag >= 0 {
 									l := h.Lag
